@@ -45,6 +45,7 @@ def run(ctx: Ctx):
     res.rule("KW-FORWARD", "at every hop each constraint keyword is passed as k=k (or k=self.k); n_const is the tensor order; subscripts of factors/dual_variables/factors_aux and order= agree inside a statement", floor=80)
     res.rule("PROX-TYPESTATE", "the primal returned by admm on the constrained path is a proximal_operator output (or the start value); constrained_parafac stores factors[mode] only from admm(...)[0]; the svd/random initialiser returns prox outputs", floor=4)
     res.rule("VALIDATE-FIRST", "validate_constraints runs in constrained_parafac before the initialiser on every path and raises when a mode would be constrained twice", floor=4)
+    res.rule("INDEX-AGREE", "in validate_constraints' registration helper the constraint table, the parameter table and the user's per-mode specification are indexed by the same key inside each loop", floor=2)
     res.rule("SIGN-HANDLER", "the 'non_negative' dispatch branch returns a value with a non-negative lower clip and no data-dependent upper bound", floor=1)
     res.assume(
         "NOT decided: that each operator's output is feasible for its constraint set (monotone, unimodal, simplex, l1-ball are numeric)",
@@ -69,6 +70,7 @@ def run(ctx: Ctx):
     ctx.guarded(prox_typestate, ctx, names, po, admm, icp, cp)
     ctx.guarded(validate_first, ctx, vc, cp, icp)
     ctx.guarded(sign_handler, ctx, po)
+    ctx.guarded(index_agree, ctx, vc)
     res.stats["constraint_names"] = names
 
 
@@ -469,6 +471,45 @@ def validate_first(ctx, vc, cp, icp):
         res.instance("VALIDATE-FIRST", f"validate_constraints: {src(c)} guarded", sample={"guarded": guarded})
         if not guarded:
             ctx.finding("VALIDATE-FIRST", vc, c, f"mode `{elem}` is recorded as constrained without first raising if it already was: two constraints on one mode are accepted silently", construct=src(c))
+
+
+def index_agree(ctx, vc):
+    """Inside validate_constraints' registration helper the per-mode tables and the user's
+    specification are indexed by the same key within one loop body."""
+    res = ctx.res
+    helpers = list(vc.nested.values())
+    if not helpers:
+        raise AnalysisError("validate_constraints: the registration helper (nested function) vanished")
+    n = 0
+    for h in helpers:
+        spec = h.pos_params[0] if h.pos_params else None
+        for loop in own_scope_nodes(h.node):
+            if not isinstance(loop, ast.For):
+                continue
+            idx = {}
+            for x in ast.walk(loop):
+                if isinstance(x, ast.Subscript) and isinstance(x.value, ast.Name):
+                    b = x.value.id
+                    if b in ("constraints", "parameters") and isinstance(x.ctx, ast.Store):
+                        idx.setdefault(b, set()).add(src(x.slice))
+                    elif b == spec and isinstance(x.ctx, ast.Load):
+                        # an index used to *read the user's value* for a mode
+                        par_is_store_value = True
+                        idx.setdefault("spec", set()).add(src(x.slice))
+            if not idx.get("constraints") and not idx.get("parameters"):
+                continue
+            n += 1
+            # reads like modes[i] (building the key) are not value reads: drop indices that
+            # only occur as sub-expressions of another index
+            alls = set().union(*idx.values())
+            keys = {k: {i for i in v if not any(i != j and i in j for j in alls)} or v for k, v in idx.items()}
+            distinct = set().union(*[v for k, v in keys.items()])
+            ok = len(distinct) == 1
+            res.instance("INDEX-AGREE", f"{h.qname}: loop@{src(loop.target)} in {src(loop.iter)[:40]}", sample={"indices": {k: sorted(v) for k, v in keys.items()}, "ok": ok})
+            if not ok:
+                ctx.finding("INDEX-AGREE", h, loop, f"inside one loop the per-mode tables and the specification are indexed differently ({ {k: sorted(v) for k, v in keys.items()} }): a constraint or its parameter is registered for another mode than the one it was requested for", construct=f"for {src(loop.target)} in {src(loop.iter)[:40]}: indices {sorted(distinct)}")
+    if n == 0:
+        raise AnalysisError("INDEX-AGREE: no registration loop found in validate_constraints")
 
 
 def sign_handler(ctx, po):
